@@ -193,8 +193,10 @@ def check(ctx):
     c04.group_rule(ctx, 'R19.5', '^(' + '|'.join(re.escape(p) for p in fns) + ')$', 'functions that iterate a hash collection (the order of iteration must not matter)', 6)
     r_deny(ctx)
     r_cli(ctx)
+    # the witness-file path of simc exists only with the serde feature
+    r_cli(ctx, 'serde')
+    c04.group_rule(ctx, 'R19.6', r'^(<?serde::.*|witness::(Arguments|WitnessValues)::as_inner)$', 'JSON reading of the witness file (serde feature)', 12, config='serde')
     if ctx.tier == 'thorough':
         r_clippy_crossref(ctx)
         r_inventory(ctx, 'serde')
         r_deny(ctx, 'serde')
-        r_cli(ctx, 'serde')
